@@ -322,7 +322,7 @@ func signCells(r *core.Run) {
 	// Sign with remote signers: declared key spec x leaf key kind
 	specs := []signature.KeySpec{}
 	for _, t := range []signature.KeyType{signature.KeyTypeRSA, signature.KeyTypeEC, 0, 3} {
-		for _, s := range []int{1024, 2047, 2048, 3072, 4096, 224, 256, 384, 521, 512, 0} {
+		for _, s := range []int{1024, 1536, 2047, 2048, 2560, 3072, 3584, 4096, 5120, 224, 256, 384, 521, 512, 0} {
 			specs = append(specs, signature.KeySpec{Type: t, Size: s})
 		}
 	}
